@@ -10,7 +10,7 @@ polygon-like and multipoint shapes incl. the missing-point mask."""
 import z3
 
 from pyvc import state as st
-from pyvc.contracts import Arr, Const, Contract, Flt, NoneSort, Sort, Tup, same_array
+from pyvc.contracts import Arr, Const, Contract, Flt, NoneSort, RecSpec, Sort, Tup, same_array
 from pyvc.values import (FIN, NONE, SArr, SBool, SFloat, SInt, SNone, SRecord, STuple, And, Implies, Ite, Not, Or,
                          exists, forall, fresh_name)
 from pyvc.builtins_np import DType
@@ -86,13 +86,23 @@ def wf(selfv):
     return out
 
 
+def _nullbit_body(self, V, n, idx):
+    byte = SInt(z3.Select(V, (idx // 8).z()))
+    return And(n > 0, bit_is_zero(byte, idx % 8))
+
+
+# bit `idx` of the validity bitmap V (n bytes) is 0.  A defined function rather than the inline div/mod formula: the
+# glue proofs only move it around (it is unfolded at ground applications, e.g. when a contract is evaluated on a
+# concrete result)
+NULLBIT = RecSpec('NULLBIT', [z3.ArraySort(z3.IntSort(), z3.IntSort()), 'int', 'int'], 'bool', _nullbit_body)
+
+
 def is_null(selfv, i):
     r = rep(selfv)
     vb = r.bufs[0]
     if isinstance(vb, SNone):
         return SBool(False)
-    idx = r.offset + i
-    return And(vb.n > 0, bit_is_zero(vb[idx // 8], idx % 8))
+    return NULLBIT(vb.A, vb.n, vb.off + r.offset + i)
 
 
 def px(selfv, i):
@@ -293,7 +303,7 @@ def register_intersects(reg):
     reg.add(Contract(PT + '::PointArray.intersects', params, returns=Arr('bool'), requires=req, ensures=ens,
                      configs=POLY_CFG + [{'validity': v, 'inds': m, 'shape': 'MultiPoint'} for v in (True, False)
                                          for m in ('none', 'given')],
-                     props=('C02', 'C17', 'C05'), fuel=2))
+                     props=('C02', 'C17', 'C05'), fuel=0))
 
     def helper(name, shapes):
         def hens(c, r):
